@@ -135,6 +135,34 @@ fn check_offset(p: &Synth, local: i128, dis: Disambiguation, rng: &mut Rng, fail
 
 const DIS: [Disambiguation; 4] = [Disambiguation::Compatible, Disambiguation::Earlier, Disambiguation::Later, Disambiguation::Reject];
 
+/// PlainDate -> ZonedDateTime at the edges of the range: a date-time outside the limits is a RangeError, never a value
+pub fn search_edges(fails: &mut Vec<Failure>) {
+        let none = Synth { initial: 0, transitions: vec![] };
+        for (y, m, d, ok_midnight) in [(-271821i32, 4u8, 19u8, false), (-271821, 4, 20, true), (275760, 9, 13, true), (1970, 1, 1, true)] {
+            let Ok(date) = temporal_rs::PlainDate::try_new(y, m, d, temporal_rs::Calendar::default()) else { continue };
+            for (h, ns) in [(0u8, 0u16), (0, 1), (12, 0)] {
+                let Ok(t) = temporal_rs::PlainTime::try_new(h, 0, 0, 0, 0, ns) else { continue };
+                let Ok(tz) = TimeZone::try_from_str("UTC") else { continue };
+                let inside = ok_midnight || h > 0 || ns > 0;
+                // readings beyond the last representable instant are left out: a provider that reports "no instant" for
+                // them sends the core into the gap probe of the recorded known finding (disambiguate_possible_epoch_nanos)
+                if y == 275760 && (h > 0 || ns > 0) { continue; }
+                let r = catch_unwind(std::panic::AssertUnwindSafe(|| date.to_zoned_date_time_with_provider(tz, Some(t), &none)));
+                let input = format!("PlainDate({y}-{m}-{d}).to_zoned_date_time(UTC, {h}:00:00.{ns:09})");
+                match r {
+                    Ok(Ok(z)) => {
+                        let days = crate::oracle::days_from_civil(y as i64, m as i64, d as i64) as i128;
+                        let want = days * 86_400_000_000_000 + h as i128 * 3_600_000_000_000 + ns as i128;
+                        if !inside || want.abs() > 8_640_000_000_000_000_000_000 { fails.push(Failure { what: "PlainDate::to_zoned_date_time outside the limits returned a value".into(), input, expected: "RangeError".into(), observed: format!("{}", z.epoch_nanoseconds().as_i128()) }); }
+                        else if z.epoch_nanoseconds().as_i128() != want { fails.push(Failure { what: "PlainDate::to_zoned_date_time".into(), input, expected: format!("{want}"), observed: format!("{}", z.epoch_nanoseconds().as_i128()) }); }
+                    }
+                    Ok(Err(_)) => {}
+                    Err(_) => fails.push(Failure { what: "PlainDate::to_zoned_date_time panicked".into(), input, expected: "value or RangeError".into(), observed: "panic".into() }),
+                }
+            }
+        }
+}
+
 pub fn search(rng: &mut Rng, budget: u64, fails: &mut Vec<Failure>) {
     search_gap(rng, budget, fails, 3 * 3600);
 }
@@ -155,6 +183,8 @@ pub fn search_gap(rng: &mut Rng, budget: u64, fails: &mut Vec<Failure>, max_gap:
             }
         }
     }
+    search_edges(fails);
+    if fails.len() >= 5 { return; }
     for k in 0..(budget / 50) {
         // one or two transitions; forward gaps up to max_gap, backward overlaps up to 3 h
         let t1 = rng.range(-4_000_000_000, 4_000_000_000) as i64;
